@@ -63,6 +63,7 @@ type Srv struct {
 	InStart bool                    // a (re)start is in progress (kill points are not armed inside the start-up catch-up)
 	Pending string                  // the operation in flight (written to the trace by a crash point that kills the process)
 	seen    map[string]bool         // oracle rows already written
+	Seeded  bool                    // the directory was installed with a statistics history (C20X)
 }
 
 func NewSrv(name string, seed uint64, t *Trace) (*Srv, error) {
@@ -141,6 +142,12 @@ func (s *Srv) emit(line string, obs string) {
 func (s *Srv) Boot(now uint32) error {
 	glow.SetCurrentTimeslot(now)
 	fresh := s.bootStart()
+	if fresh == nil && s.Seeded {
+		// the installed history was refused: this scenario tests nothing (a new scenario line resets the driver)
+		s.T.Count("seeded-directory-refused")
+		s.T.Line("scenario void")
+		return fmt.Errorf("boot failed")
+	}
 	if fresh == nil {
 		s.T.Line("srv.boot temp=%s fresh=%s now=%d => fail", hx(s.E.Temp.Pub[:]), hx(make([]byte, 32)), now)
 		return fmt.Errorf("boot failed")
@@ -160,6 +167,20 @@ func (s *Srv) bootStart() []byte {
 	pk := s.E.S.PublicKey()
 	s.Keys[pk] = true
 	return pk[:]
+}
+
+// SeedWeek puts one archived week without devices into the statistics history of a directory that has
+// not been started yet.
+func (s *Srv) SeedWeek(tso uint32) {
+	ads := server.AllDeviceStats{TimeslotOffset: tso}
+	f, err := os.OpenFile(s.E.Dir+"/"+server.AllDeviceStatsHistoryFile, os.O_APPEND|os.O_CREATE|os.O_WRONLY, 0644)
+	if err == nil {
+		f.Write(ads.Serialize())
+		f.Close()
+	}
+	s.Seeded = true
+	s.T.Count("seeded-week")
+	s.T.Line("srv.seedweek tso=%d => ok", tso)
 }
 
 func (s *Srv) SetNow(now uint32) { glow.SetCurrentTimeslot(now) }
